@@ -406,6 +406,15 @@ ASSUMPTIONS = [
     "adaptive classes (ALIF, GLIF2, Izhikevich, AdEx): class-level contracts with TWO adaptation components of symbolic constants (component index arbitrary); the sum over the adaptation axis is an uninterpreted constant tied to the adaptation tensor; the configured batch reduction of adaptations is applied to one arbitrary sample (identity) and its single application over dimension 0 is checked",
 ]
 
+# the batch-size setter of a neuron must leave every sample - kept or new - in the rest state a fresh neuron starts from
+# (clear-after-resize): the C14 contract on the real InfernoNeuron.batchsz setter is an obligation of this property too
+from pyvc.harness import REGISTRY as _REG  # noqa: E402
+from . import c14_config as _c14  # noqa: E402,F401
+
+for _cd in list(_REG.get("C14", [])):
+    if _cd.name == "LIF[setters_vs_constructor]" and not any(x.name == _cd.name for x in _REG.get(P, [])):
+        contract(P, _cd.name, list(_cd.targets), min_obligations=_cd.min_obligations)(_cd.fn)
+
 MUTANTS = [
     dict(file=NL, func="ALIF.forward", old="            thresh_v=nf.apply_adaptive_thresholds(\n                self.thresh_eq_v, self.threshold_adaptation\n            ),", new="            thresh_v=self.thresh_eq_v,", contracts=["ALIF.forward"], name="ALIF ignores its threshold adaptation"),
     dict(file=NL, func="GLIF2.forward", old="time_constant=1 / self.rc_adaptation,", new="time_constant=self.rc_adaptation,", contracts=["GLIF2.forward"], name="GLIF2 uses the rate constant as a time constant"),
